@@ -526,8 +526,10 @@ def stream_harness(ctx, cls, n, passes=1, opts=None):
         raise
     except Exception as e:                             # noqa: BLE001
         ctx.trace(("construct-exc", type(e).__name__))
-        if ctx.is_fatal("X.exception"):
-            ctx.fail("X.exception", {"exc": repr(e), "at": "constructor"})
+        # a valid tuple rejected at construction is C17's business (no action was emitted, so the
+        # stream properties have nothing to judge)
+        if ctx.is_fatal("C17.valid_rejected"):
+            ctx.fail("C17.valid_rejected", {"exc": repr(e), "at": "constructor", "params": {k: v for k, v in P.items()}})
         ctx.not_evaluable("constructor raised %s" % type(e).__name__)
     rb, db = budgets(P, N)
     mon = Monitor(ctx, N, rb, db, keeps_all_adj=(cls == "SingleMemory"),
